@@ -7,9 +7,10 @@
  "unwind": 12, "unwindset": ["attrspec.0:5", "parseattr.0:7", "harness.0:4"],
  "variants": {"n0": ["-DV_N=0"], "n1": ["-DV_N=1"], "n2": ["-DV_N=2"], "n3": ["-DV_N=3"], "notspec": ["-DV_N=1", "-DV_NOTSPEC"]},
  "canary_variant": "n2",
+ "cbmc_flags": ["--sat-solver", "cadical"],
  "kind": "bounded",
  "bound": "one attribute specifier `[[ list ]]` followed by `;`: the list has 0..3 elements, each a comma or an attribute out of {foo, packed, gnu::packed, __gnu__::__packed__, vnd::packed, gnu::foo, foo(args), vnd::foo(args)} with args one of `()`, `(1,1)`, `((1))`, `([1])` or the unterminated `(1 <end of input>`; closed by `]]`, by a single `]`, or cut off by end of input; plus the non-specifiers `[ 1 ]` and `;`.  Excluded here (they FAIL, see ATTR.attrspec.syntax): two attributes without a comma between them, and argument clauses whose brackets/braces do not balance",
- "timeout": 200, "replay": false,
+ "timeout": 600, "replay": false,
  "assumes": ["next/peek/consume/expect are token-script stand-ins with pp.c's meaning (attr_common2.h); the set `allowed` contains packed (the not-supported-here diagnostic is ATTR.parseattr's business)",
              "native replay impossible (attrspec is static; stand-ins replace pp.c)"]
 }
